@@ -373,8 +373,13 @@ def forward_regimes(rep, pid, tier):
                               ("ScatLayer(near_sym_b_bp,colour)", lambda b: pw.ScatLayer(biort="near_sym_b_bp", magbias=b, combine_colour=True), (1, 3, 8, 8)),
                               ("ScatLayerj2(near_sym_a)", lambda b: pw.ScatLayerj2(magbias=b), (1, 2, 16, 8)),
                               ("ScatLayerj2(near_sym_b_bp)", lambda b: pw.ScatLayerj2(biort="near_sym_b_bp", qshift="qshift_b_bp", magbias=b), (2, 2, 8, 16))):
-        for b in (0.5, 1.0):
+        for b in (0.0, 0.5, 1.0):
             x = torch.tensor(rng.standard_normal(shape))
+            if b != 0.5:
+                # exact zeros: a black border region and isolated zero pixels (where every subband vanishes the modulus is
+                # exactly b - b = 0; a "safe division" that touches such entries shows only here, and only for some regimes)
+                x[..., : shape[-2] // 2, :] = 0.0
+                x[..., ::3] = 0.0
             lay = make(float(b))
             base = lay(x).detach()
             xp = torch.tensor(np.ascontiguousarray(np.moveaxis(x.numpy(), 1, -1))).permute(0, 3, 1, 2)      # NHWC storage, NCHW view
